@@ -355,17 +355,33 @@ example :
 example : strText [.raw 97 (by decide), .esc .quote, .u (.dig 0) (.dig 0) (.lower 4) (.dig 9)]
     = [34, 97, 92, 34, 92, 117, 48, 48, 101, 57, 34] := rfl
 
+/-- `number`, `int`, `exp` of tests/grammars/json.pest, as regenerated -/
+theorem testsJson_number_rules : TNumberRules Generated.testsJson :=
+  ⟨⟨.grammar, by rfl⟩, ⟨.grammar, by rfl⟩, ⟨.grammar, by rfl⟩⟩
+
+/-- `string`, `inner` (recursive), `escape`, `unicode` of tests/grammars/json.pest -/
+theorem testsJson_string_rules : TStringRules Generated.testsJson :=
+  ⟨⟨.grammar, by rfl⟩, ⟨.grammar, by rfl⟩, ⟨.grammar, by rfl⟩, ⟨.grammar, by rfl⟩⟩
+
+/-- **Every RFC 8259 number is one `number` token (tests/grammars/json.pest)**: same statement
+    as `json_number_accepts`; the pairs of the nested atomic rules `int` and `exp` are hidden. -/
+theorem json_number_accepts_tests (inp : Input) (s : S0) (n : Num) (post : Str)
+    (hr : inp.toList.drop s.pos = numText n ++ post) (hf : HeadIs NumFollow post) :
+    Conv Generated.testsJson inp (.ident "number" none) s
+      (.ok { s with pos := s.pos + (numText n).length }
+        [mkPair "number" ATOMIC s.pos (s.pos + (numText n).length) []]) :=
+  (ev_tNumber testsJson_number_rules s n hr hf).conv (by simp)
+
+/-- **Every RFC 8259 string is one childless `string` token spanning the quotes
+    (tests/grammars/json.pest)**; `inner` recurses once per escape. -/
+theorem json_string_accepts_tests (inp : Input) (s : S0) (cs : SStr) (post : Str)
+    (hr : inp.toList.drop s.pos = strText cs ++ post) :
+    Conv Generated.testsJson inp (.ident "string" none) s
+      (.ok { s with pos := s.pos + (strText cs).length } [mirrorStr .tests s.pos cs]) :=
+  (ev_tString testsJson_string_rules s cs hr).conv (by simp)
+
 /-! ### stages 2–4: OPEN
 
-  -- OPEN (stage 1 for tests/grammars/json.pest): the same two statements for
-  --   `Generated.testsJson`, whose `number` is `"-"? ~ int ~ ("." ~ ASCII_DIGIT+ ~ exp? | exp)?`
-  --   with nested atomic rules `int`/`exp`, and whose `inner` is the recursive rule
-  --   `(!("\"" | "\\") ~ ANY)* ~ (escape ~ inner)?` — same method (Lemmas/Ev.lean), not done:
-  --   theorem json_number_accepts_tests … : Conv Generated.testsJson inp (.ident "number" none) s
-  --       (.ok { s with pos := s.pos + (numText n).length } [mkPair "number" ATOMIC s.pos (s.pos + (numText n).length) []])
-  --   theorem json_string_accepts_tests … : Conv Generated.testsJson inp (.ident "string" none) s
-  --       (.ok { s with pos := s.pos + (strText cs).length } [mirrorStr .tests s.pos cs])
-  --
   -- OPEN (stage 2, values): for every `v : Val`, from a non-atomic state, followed by whitespace, `,`, `]`,
   --   `}` or the end:
   --   theorem json_value_accepts (fl) (v : Val) … :
